@@ -43,6 +43,26 @@ type verifDirectory struct {
 	Searches  int
 	hold      chan struct{}
 	waiting   int
+	acctState map[string]string // user -> Active Directory sub-code of an account the directory refuses
+}
+
+// SetAccountState: the directory refuses every bind of the user with result code 49 and Active Directory's diagnostic
+// for the given sub-code ("" = normal again; user "" = clear all).
+func (d *verifDirectory) SetAccountState(user, subCode string) {
+	d.mu.Lock()
+	defer d.mu.Unlock()
+	if user == "" {
+		d.acctState = nil
+		return
+	}
+	if d.acctState == nil {
+		d.acctState = map[string]string{}
+	}
+	if subCode == "" {
+		delete(d.acctState, user)
+	} else {
+		d.acctState[user] = subCode
+	}
 }
 
 type verifLDAPServer struct {
@@ -193,6 +213,13 @@ func (s *verifLDAPServer) handleBind(w ldapsrv.ResponseWriter, m *ldapsrv.Messag
 			// directory attribute matching is case-insensitive, as in real LDAP servers
 			want, exists := d.Passwords[strings.ToLower(user)]
 			ok = exists && pw != "" && pw == want && strings.EqualFold(name, fmt.Sprintf(verifLDAPBindPattern, user))
+			if sub := d.acctState[strings.ToLower(user)]; sub != "" {
+				d.Binds++
+				res := ldapsrv.NewBindResponse(ldapsrv.LDAPResultInvalidCredentials)
+				res.SetDiagnosticMessage("80090308: LdapErr: DSID-0C090446, comment: AcceptSecurityContext error, data " + sub + ", v2580")
+				w.Write(res)
+				return
+			}
 		}
 		d.Binds++
 	}
